@@ -829,3 +829,254 @@ Proof.
   - unfold st2, absoff in *. cbn [m_l m_p mset_lp l_base set_tidx set_att set_ctx]. rewrite Ho1.
     exact Hcont.
 Qed.
+
+(* ---- attributes ---- *)
+(* a show can start only where the reference has a context for it *)
+Lemma ref_no_show rf rs off c r acc w :
+  not_raw rs -> ctx_of rs = None -> ref_run2 o rf rs off (c :: r) acc = Some w -> (c =? 123) && hd_is r 123 = false.
+Proof.
+  intros Hn Hc H. destruct ((c =? 123) && hd_is r 123) eqn:E; [|reflexivity].
+  destruct (ref_show _ _ _ _ _ _ _ Hn H E) as (_ & cx & _ & _ & Hcx & _). congruence.
+Qed.
+
+Definition attr_name (L : lexer) (p q : N) : bytes := map lower (take (q - p) (drop p (l_src L))).
+
+(* the first loop of scanAttribute, after the first letter of the name *)
+Definition attr1J (L : lexer) (tag : bytes) (p : N) (acc w : list (N * N)) (st : lexer * N * bool) : Prop :=
+  let q := snd (fst st) in
+  same_lex L (fst (fst st)) /\ p < q /\ q <= len L /\ ascii (take (q - p) (drop p (l_src L))) = true /\
+  exists rf, ref_run2 o rf (RAttrName tag (attr_name L p q)) (l_base L + q) (drop q (l_src L)) acc = Some w.
+
+Lemma attr_loop1_sim L tag p acc w fuel st0 :
+  is_bytes (l_src L) = true -> attr1J L tag p acc w st0 ->
+  psafeT (loop fuel (attr_name_body U) st0)
+    (fun st => attr1J L tag p acc w st /\
+               let q := snd (fst st) in
+               if snd st then get (l_src L) q = Some 62
+               else q = len L \/ exists c, get (l_src L) q = Some c /\ ((c =? 61) || is_ws c = true)).
+Proof.
+  intros Hby H0. apply (psafe_loop (attr_name_body U) (attr1J L tag p acc w)); [|exact H0].
+  intros [[l1 q] b] HJ. pose proof HJ as (Hl & Hq0 & Hq1 & Hasc & rf & Href). cbn [fst snd] in *.
+  unfold attr_name_body. assert (Hsrc : l_src l1 = l_src L) by apply Hl.
+  assert (Hlen : len l1 = len L) by (unfold len; rewrite Hsrc; reflexivity). rewrite Hlen.
+  destruct (N.ltb_spec q (len L)) as [Hlt|Hge]; cbn [negb]; [|cbn; split; [exact HJ|left; lia]].
+  pget c Hc. rewrite Hsrc in Hc. pose proof (is_bytes_get _ _ _ Hby Hc) as Hc256.
+  destruct (drop_cons_get _ _ Hlt) as (c' & r & Hdr & Hg). rewrite Hc in Hg. injection Hg as <-. rewrite Hdr in Href.
+  pose proof (ref_no_show rf (RAttrName tag (attr_name L p q)) _ _ _ _ _ I eq_refl Href) as Hns.
+  destruct (ref_byte rf (RAttrName tag (attr_name L p q)) _ _ _ _ _ I Href Hns) as (rf' & -> & _ & Hno & Hcont).
+  cbn [rstep2] in Hno, Hcont. rewrite (isASCIISpace_is_ws c Hc256).
+  destruct (raw_elem tag && bytes_eqb (attr_name L p q) s_type); [cbn in Hno; contradiction|].
+  destruct (N.eqb_spec c 61) as [->|N61]; [cbn; split; [exact HJ|right; exists 61; auto]|].
+  destruct (is_ws c) eqn:Ews; [cbn; split; [exact HJ|right; exists c; rewrite Ews, orb_true_r; auto]|]. cbn [orb].
+  destruct (N.eqb_spec c 62) as [->|N62]; [cbn; split; [exact HJ|exact Hc]|].
+  destruct (is_letter c || (c =? 45)) eqn:Eok; [|cbn in Hno; contradiction].
+  assert (Hcr : (65 <= c <= 90 \/ 97 <= c <= 122) \/ c = 45).
+  { apply orb_prop in Eok. destruct Eok as [Eok|Eok]; [left|right; apply N.eqb_eq in Eok; exact Eok].
+    unfold is_letter, lower in Eok. destruct ((65 <=? c) && (c <=? 90)) eqn:E; b2p; lia. }
+  assert (E31 : (c <=? 31) = false) by (apply N.leb_gt; lia).
+  assert (Ene : forall k, (k = 34 \/ k = 39 \/ k = 62 \/ k = 47 \/ k = 127 \/ k = 123) -> (c =? k) = false) by (intros k Hk; apply N.eqb_neq; lia).
+  rewrite E31, ?(Ene 34), ?(Ene 39), ?(Ene 62), ?(Ene 47), ?(Ene 127), ?(Ene 123) by tauto. cbn [orb].
+  assert (E128 : (128 <=? c) = false) by (apply N.leb_gt; lia). rewrite E128. cbv iota. rewrite bind_ok. cbn [andb andm]. rewrite bind_ok. cbv iota.
+  cbn [psafeE fst snd]. cbn [fst snd] in Hcont. rewrite N.add_0_r in Hcont.
+  unfold attr1J. cbn [fst snd]. split; [eapply same_lex_trans; [exact Hl|repeat split]|]. split; [lia|]. split; [lia|].
+  assert (Hpq : p <= q) by lia.
+  split.
+  - rewrite (take_snoc_range _ _ _ _ Hpq Hc). unfold ascii in *. rewrite forallb_app, Hasc. cbn. assert (c <? 128 = true) by (apply N.ltb_lt; lia). rewrite H. reflexivity.
+  - exists rf'. unfold attr_name in *. rewrite (take_snoc_range _ _ _ _ Hpq Hc), map_app. cbn [map].
+    rewrite N.add_assoc, <- drop_drop, Hdr. exact Hcont.
+Qed.
+
+(* the second loop: spaces, then the equals sign *)
+Definition attr2J (L : lexer) (tag nm : bytes) (p1 : N) (acc w : list (N * N)) (st : lexer * N * N) : Prop :=
+  let q := snd (fst st) in
+  same_lex L (fst (fst st)) /\ p1 <= q /\ q <= len L /\
+  exists rf rs2, ref_run2 o rf rs2 (l_base L + q) (drop q (l_src L)) acc = Some w /\
+    ((rs2 = RAttrName tag nm /\ exists c, get (l_src L) q = Some c /\ (c =? 61) || is_ws c = true) \/
+     (rs2 = RAfterName tag nm /\ raw_elem tag && bytes_eqb nm s_type = false)).
+
+Lemma attr_loop2_sim L tag nm p1 acc w fuel st0 :
+  is_bytes (l_src L) = true -> attr2J L tag nm p1 acc w st0 ->
+  psafeT (loop fuel (attr_sp_body 0) st0)
+    (fun st => let q := snd (fst st) in
+               same_lex L (fst (fst st)) /\ p1 <= q /\ q <= len L /\
+               ((snd st = 0 /\ q = len L /\ exists rf rs, ref_run2 o rf rs (l_base L + q) (drop q (l_src L)) acc = Some w) \/
+                (snd st = 1 /\ raw_elem tag && bytes_eqb nm s_type = false /\
+                 exists rf, ref_run2 o rf (RBeforeValue tag nm) (l_base L + q) (drop q (l_src L)) acc = Some w))).
+Proof.
+  intros Hby H0. apply (psafe_loop (attr_sp_body 0) (attr2J L tag nm p1 acc w)); [|exact H0].
+  intros [[l2 q] k] (Hl & Hq0 & Hq1 & rf & rs2 & Href & Hrs). cbn [fst snd] in *.
+  unfold attr_sp_body. assert (Hsrc : l_src l2 = l_src L) by apply Hl.
+  assert (Hlen : len l2 = len L) by (unfold len; rewrite Hsrc; reflexivity). rewrite Hlen.
+  destruct (N.ltb_spec q (len L)) as [Hlt|Hge]; cbn [negb]; [|cbn; split; [exact Hl|]; split; [exact Hq0|]; split; [exact Hq1|left; split; [reflexivity|split; [lia|eauto]]]].
+  pget c Hc. rewrite Hsrc in Hc. pose proof (is_bytes_get _ _ _ Hby Hc) as Hc256.
+  destruct (drop_cons_get _ _ Hlt) as (c' & r & Hdr & Hg). rewrite Hc in Hg. injection Hg as <-. rewrite Hdr in Href.
+  change (0 =? 0) with true. change (0 =? 1) with false. cbn [andb]. rewrite (isASCIISpace_is_ws c Hc256).
+  assert (Hstep : (raw_elem tag && bytes_eqb nm s_type = false) /\ exists rf',
+            ref_run2 o rf' (if c =? 61 then RBeforeValue tag nm else RAfterName tag nm) (l_base L + q + 1) r acc = Some w /\
+            (if c =? 61 then True else is_ws c = true)).
+  { destruct Hrs as [(-> & c2 & Hc2 & Hcl)|(-> & Hnt)].
+    - rewrite Hc in Hc2. injection Hc2 as <-.
+      pose proof (ref_no_show rf (RAttrName tag nm) _ _ _ _ _ I eq_refl Href) as Hns.
+      destruct (ref_byte rf (RAttrName tag nm) _ _ _ _ _ I Href Hns) as (rf' & -> & _ & Hno & Hcont).
+      cbn [rstep2] in Hno, Hcont. destruct (raw_elem tag && bytes_eqb nm s_type); [cbn in Hno; contradiction|]. split; [reflexivity|].
+      exists rf'. destruct (c =? 61); [cbn in Hcont; rewrite N.add_0_r in Hcont; auto|]. cbn [orb] in Hcl. rewrite Hcl in *.
+      cbn in Hcont. rewrite N.add_0_r in Hcont. auto.
+    - pose proof (ref_no_show rf (RAfterName tag nm) _ _ _ _ _ I eq_refl Href) as Hns.
+      destruct (ref_byte rf (RAfterName tag nm) _ _ _ _ _ I Href Hns) as (rf' & -> & _ & Hno & Hcont).
+      cbn [rstep2 rstep] in Hno, Hcont. split; [exact Hnt|]. exists rf'.
+      destruct (is_ws c) eqn:Ews.
+      + assert (E61 : (c =? 61) = false) by (apply N.eqb_neq; intros ->; discriminate Ews). rewrite E61.
+        cbn in Hcont. rewrite N.add_0_r in Hcont. auto.
+      + destruct (c =? 61); [cbn in Hcont; rewrite N.add_0_r in Hcont; auto|cbn in Hno; contradiction]. }
+  destruct Hstep as (Hnt & rf' & Hcont & Hcl).
+  assert (Hr : drop (q + 1) (l_src L) = r) by (rewrite <- drop_drop, Hdr; reflexivity).
+  destruct (N.eqb_spec c 61) as [->|N61].
+  - cbn [psafeE fst snd]. split; [eapply same_lex_trans; [exact Hl|repeat split]|]. split; [lia|]. split; [lia|].
+    right. split; [reflexivity|]. split; [exact Hnt|]. exists rf'. rewrite N.add_assoc, Hr. exact Hcont.
+  - rewrite Hcl. cbn [psafeE fst snd]. unfold attr2J. cbn [fst snd].
+    split; [eapply same_lex_trans; [exact Hl|destruct (c =? 10); repeat split]|]. split; [lia|]. split; [lia|].
+    exists rf', (RAfterName tag nm). rewrite N.add_assoc, Hr. split; [exact Hcont|]. right. auto.
+Qed.
+
+(* the third loop: spaces in front of the value *)
+Definition attr3J (L : lexer) (tag nm : bytes) (p2 : N) (acc w : list (N * N)) (st : lexer * N * N) : Prop :=
+  let q := snd (fst st) in
+  same_lex L (fst (fst st)) /\ p2 <= q /\ q <= len L /\
+  exists rf, ref_run2 o rf (RBeforeValue tag nm) (l_base L + q) (drop q (l_src L)) acc = Some w.
+
+Lemma attr_loop3_sim L tag nm p2 acc w fuel st0 :
+  is_bytes (l_src L) = true -> attr3J L tag nm p2 acc w st0 ->
+  psafeT (loop fuel (attr_sp_body 1) st0)
+    (fun st => let q := snd (fst st) in
+               attr3J L tag nm p2 acc w (fst st, 0) /\
+               ((snd st = 0 /\ q = len L) \/
+                (snd st = 1 /\ exists c, get (l_src L) q = Some c /\ is_ws c = false /\ c <> 62))).
+Proof.
+  intros Hby H0. apply (psafe_loop (attr_sp_body 1) (attr3J L tag nm p2 acc w)); [|exact H0].
+  intros [[l3 q] k] HJ. pose proof HJ as (Hl & Hq0 & Hq1 & rf & Href). cbn [fst snd] in *.
+  unfold attr_sp_body. assert (Hsrc : l_src l3 = l_src L) by apply Hl.
+  assert (Hlen : len l3 = len L) by (unfold len; rewrite Hsrc; reflexivity). rewrite Hlen.
+  destruct (N.ltb_spec q (len L)) as [Hlt|Hge]; cbn [negb]; [|cbn; split; [exact HJ|left; split; [reflexivity|lia]]].
+  pget c Hc. rewrite Hsrc in Hc. pose proof (is_bytes_get _ _ _ Hby Hc) as Hc256.
+  destruct (drop_cons_get _ _ Hlt) as (c' & r & Hdr & Hg). rewrite Hc in Hg. injection Hg as <-. rewrite Hdr in Href.
+  change (1 =? 0) with false. change (1 =? 1) with true. cbn [andb]. rewrite (isASCIISpace_is_ws c Hc256).
+  pose proof (ref_no_show rf (RBeforeValue tag nm) _ _ _ _ _ I eq_refl Href) as Hns.
+  destruct (ref_byte rf (RBeforeValue tag nm) _ _ _ _ _ I Href Hns) as (rf' & -> & _ & Hno & Hcont).
+  cbn [rstep2 rstep] in Hno, Hcont.
+  destruct (N.eqb_spec c 62) as [->|N62]; [cbn in Hno; contradiction|].
+  destruct (is_ws c) eqn:Ews.
+  - cbn [psafeE fst snd]. unfold attr3J. cbn [fst snd]. cbn in Hcont. rewrite N.add_0_r in Hcont.
+    split; [eapply same_lex_trans; [exact Hl|destruct (c =? 10); repeat split]|]. split; [lia|]. split; [lia|].
+    exists rf'. rewrite N.add_assoc, <- drop_drop, Hdr. exact Hcont.
+  - cbn [psafeE fst snd]. split; [unfold attr3J; cbn [fst snd]; rewrite Hdr; eauto 10|]. right. split; [reflexivity|]. eauto.
+Qed.
+
+(* a greater-than sign after an attribute name: as in the tag *)
+Lemma attrname_gt rf tag nm off t acc w :
+  ref_run2 o rf (RAttrName tag nm) off (62 :: t) acc = Some w -> ref_run2 o rf (RInTag tag) off (62 :: t) acc = Some w.
+Proof.
+  intros H. destruct rf as [|rf']; [discriminate|]. rewrite ref_run2_eq in H |- * by exact I. cbn [ctx_of] in *.
+  change ((62 =? 123) && hd_is t 123) with false in *. change ((62 =? 123) && (hd_is t 37 || hd_is t 35)) with false in *. cbv iota in *.
+  cbn [rstep2] in *. destruct (raw_elem tag && bytes_eqb nm s_type); [discriminate|]. exact H.
+Qed.
+
+Lemma attr_first L p c :
+  get (l_src L) p = Some c -> is_letter c = true -> attr_name_body U (L, p, false) = Ok (Again (addcol 1 L, p + 1, false)).
+Proof.
+  intros Hc Hl. pose proof (get_some _ _ _ Hc) as Hlt. fold (len L) in Hlt.
+  assert (Hcr : 65 <= c <= 90 \/ 97 <= c <= 122).
+  { unfold is_letter, lower in Hl. destruct ((65 <=? c) && (c <=? 90)) eqn:E; b2p; lia. }
+  unfold attr_name_body. apply N.ltb_lt in Hlt. rewrite Hlt. cbn [negb]. unfold idx. rewrite Hc. cbn [bind].
+  assert (Ene : forall k, (k = 61 \/ k = 34 \/ k = 39 \/ k = 62 \/ k = 47 \/ k = 127 \/ k = 123) -> (c =? k) = false) by (intros k Hk; apply N.eqb_neq; lia).
+  assert (Esp : isASCIISpace c = false).
+  { unfold isASCIISpace, mem. cbn [gen_lex_isASCIISpace existsb]. repeat (apply orb_false_intro); try reflexivity; apply N.eqb_neq; lia. }
+  assert (E31 : (c <=? 31) = false) by (apply N.leb_gt; lia).
+  assert (E128 : (128 <=? c) = false) by (apply N.leb_gt; lia).
+  rewrite Esp, E31, E128, ?(Ene 61), ?(Ene 34), ?(Ene 39), ?(Ene 62), ?(Ene 47), ?(Ene 127), ?(Ene 123) by tauto. reflexivity.
+Qed.
+
+Lemma loop_at_end m fuel l2 q : q = len l2 -> psafeT (loop fuel (attr_sp_body m) (l2, q, 0)) (fun st => st = (l2, q, 0)).
+Proof.
+  intros ->. destruct fuel; [exact I|]. cbn [loop]. unfold attr_sp_body. rewrite N.ltb_irrefl. cbn. reflexivity.
+Qed.
+
+(* scanAttribute in front of a letter, against the reference in the tag *)
+Lemma attr_sim L tag p c acc w rf :
+  is_bytes (l_src L) = true -> get (l_src L) p = Some c -> is_letter c = true ->
+  ref_run2 o rf (RInTag tag) (l_base L + p) (drop p (l_src L)) acc = Some w ->
+  psafeT (scan_attribute U L p)
+    (fun x => let l1 := fst (fst x) in let attr := snd (fst x) in let next := snd x in
+      same_lex L l1 /\ p < next /\ next <= len L /\
+      ((attr = [] /\ exists rf1 rs1, ref_run2 o rf1 rs1 (l_base L + next) (drop next (l_src L)) acc = Some w /\
+                                      (drop next (l_src L) = [] \/ rs1 = RInTag tag))
+       \/ (nonempty attr = true /\ raw_elem tag && bytes_eqb attr s_type = false /\
+           exists rf1 c1, ref_run2 o rf1 (RBeforeValue tag attr) (l_base L + next) (drop next (l_src L)) acc = Some w /\
+                          get (l_src L) next = Some c1 /\ is_ws c1 = false /\ c1 <> 62))).
+Proof.
+  intros Hby Hc Hl Href. pose proof (get_some _ _ _ Hc) as Hlt. fold (len L) in Hlt.
+  pose proof (is_bytes_get _ _ _ Hby Hc) as Hc256.
+  destruct (drop_cons_get _ _ Hlt) as (c' & r & Hdr & Hg). rewrite Hc in Hg. injection Hg as <-. rewrite Hdr in Href.
+  (* the reference reads the first letter *)
+  pose proof (ref_no_show rf (RInTag tag) _ _ _ _ _ I eq_refl Href) as Hns.
+  destruct (ref_byte rf (RInTag tag) _ _ _ _ _ I Href Hns) as (rf' & -> & _ & Hno & Hcont).
+  cbn [rstep2] in Hno, Hcont.
+  assert (Hws : is_ws c = false).
+  { unfold is_ws. unfold is_letter, lower in Hl. destruct ((65 <=? c) && (c <=? 90)) eqn:E; b2p; repeat (apply orb_false_intro); apply N.eqb_neq; lia. }
+  assert (H62 : (c =? 62) = false) by (apply N.eqb_neq; intros ->; discriminate Hl).
+  assert (Hc128 : c < 128) by (unfold is_letter, lower in Hl; destruct ((65 <=? c) && (c <=? 90)) eqn:E; b2p; lia).
+  rewrite Hws, H62, Hl in Hno, Hcont. cbn [fst snd] in Hcont. rewrite N.add_0_r in Hcont.
+  unfold scan_attribute. cbv zeta.
+  assert (E1 : loop (S (length (l_src L))) (attr_name_body U) (L, p, false) = loop (length (l_src L)) (attr_name_body U) (addcol 1 L, p + 1, false))
+    by (cbn [loop]; rewrite (attr_first L p c Hc Hl); reflexivity).
+  rewrite E1.
+  assert (HJ1 : attr1J L tag p acc w (addcol 1 L, p + 1, false)).
+  { unfold attr1J. cbn [fst snd]. split; [repeat split|]. split; [lia|]. split; [lia|].
+    assert (Htk : take (p + 1 - p) (drop p (l_src L)) = [c]) by (replace (p + 1 - p) with 1 by lia; apply take_1; rewrite get_drop0; exact Hc).
+    unfold attr_name. rewrite Htk. split; [cbn; apply N.ltb_lt in Hc128; rewrite Hc128; reflexivity|].
+    exists rf'. cbn [map]. rewrite <- drop_drop, Hdr. change (drop 1 (c :: r)) with r. rewrite N.add_assoc. exact Hcont. }
+  eapply psafe_bind; [apply (attr_loop1_sim L tag p acc w _ _ Hby HJ1)|].
+  intros [[l1 p1] ret] [(Hl1 & Hp0 & Hp1 & Hasc & rf1 & Href1) Htail]. cbn [fst snd] in *.
+  set (nm := attr_name L p p1) in *.
+  destruct ret.
+  { (* the name ends at a greater-than sign *)
+    cbn [psafeE fst snd]. split; [exact Hl1|]. split; [exact Hp0|]. split; [exact Hp1|]. left. split; [reflexivity|].
+    assert (Hlt1 : p1 < nlen (l_src L)) by (apply get_some in Htail; exact Htail).
+    destruct (drop_cons_get _ _ Hlt1) as (b & t & Hd1 & Hg1). rewrite Htail in Hg1. injection Hg1 as <-.
+    exists rf1, (RInTag tag). split; [|right; reflexivity]. rewrite Hd1 in *. apply (attrname_gt rf1 tag nm). exact Href1. }
+  destruct Htail as [Hend|(c1 & Hg1 & Hc1)].
+  { (* the source ends inside the name *)
+    assert (E : (p1 =? p) || (p1 =? len L) = true) by (rewrite Hend, N.eqb_refl, orb_true_r; reflexivity). rewrite E.
+    cbn [psafeE fst snd]. split; [exact Hl1|]. split; [exact Hp0|]. split; [exact Hp1|]. left. split; [reflexivity|].
+    exists rf1, (RAttrName tag nm). split; [exact Href1|]. left. unfold drop, len in *. rewrite Hend, nlen_eq, Nat2N.id. apply skipn_all. }
+  assert (Hlt1 : p1 < len L) by (apply get_some in Hg1; exact Hg1).
+  assert (E : (p1 =? p) || (p1 =? len L) = false) by (apply orb_false_intro; apply N.eqb_neq; lia). rewrite E.
+  destruct (N.ltb_spec (len L) p1) as [Hbad|_]; [lia|].
+  rewrite (to_lower_ascii _ Hasc). fold (attr_name L p p1). fold nm.
+  (* spaces and the equals sign *)
+  assert (HJ2 : attr2J L tag nm p1 acc w (l1, p1, 0)).
+  { unfold attr2J. cbn [fst snd]. split; [exact Hl1|]. split; [lia|]. split; [lia|]. exists rf1, (RAttrName tag nm). split; [exact Href1|]. left. eauto. }
+  eapply psafe_bind; [apply (attr_loop2_sim L tag nm p1 acc w _ _ Hby HJ2)|].
+  intros [[l2 p2] k2] (Hl2 & Hq0 & Hq1 & Hk2). cbn [fst snd] in *.
+  destruct Hk2 as [(-> & Hend2 & rf2 & rs2 & Href2)|(-> & Hnt & rf2 & Href2)].
+  - (* the source ends after the name *)
+    change (0 =? 2) with false. cbv iota.
+    assert (Hl2len : p2 = len l2) by (rewrite Hend2; unfold len; rewrite (proj1 Hl2); reflexivity).
+    eapply psafe_bind; [apply (loop_at_end 1 _ l2 p2 Hl2len)|]. intros st3 ->. cbv beta iota.
+    change (0 =? 2) with false. rewrite Hend2, N.eqb_refl. cbn [psafeE fst snd].
+    split; [exact Hl2|]. split; [lia|]. split; [lia|]. left. split; [reflexivity|]. exists rf2, rs2. rewrite <- Hend2. split; [exact Href2|].
+    left. unfold drop, len in *. rewrite Hend2, nlen_eq, Nat2N.id. apply skipn_all.
+  - change (1 =? 2) with false. cbv iota.
+    assert (HJ3 : attr3J L tag nm p2 acc w (l2, p2, 0)).
+    { unfold attr3J. cbn [fst snd]. split; [exact Hl2|]. split; [lia|]. split; [exact Hq1|]. eauto. }
+    eapply psafe_bind; [apply (attr_loop3_sim L tag nm p2 acc w _ _ Hby HJ3)|].
+    intros [[l3 p3] k3] [(Hl3 & Hr0 & Hr1 & rf3 & Href3) Hk3]. cbn [fst snd] in *.
+    destruct Hk3 as [(-> & Hend3)|(-> & c3 & Hg3 & Hws3 & N623)].
+    + change (0 =? 2) with false. rewrite Hend3, N.eqb_refl. cbn [psafeE fst snd].
+      split; [exact Hl3|]. split; [lia|]. split; [lia|]. left. split; [reflexivity|]. exists rf3, (RBeforeValue tag nm). rewrite <- Hend3. split; [exact Href3|].
+      left. unfold drop, len in *. rewrite Hend3, nlen_eq, Nat2N.id. apply skipn_all.
+    + change (1 =? 2) with false. assert (Hlt3 : p3 < len L) by (apply get_some in Hg3; exact Hg3).
+      destruct (N.eqb_spec p3 (len L)) as [Ebad|_]; [lia|]. cbn [psafeE fst snd].
+      split; [exact Hl3|]. split; [lia|]. split; [lia|]. right.
+      split; [unfold nm, attr_name; replace (p1 - p) with (1 + (p1 - p - 1)) by lia; rewrite take_add, (take_1 _ c) by (rewrite get_drop0; exact Hc); reflexivity|].
+      split; [exact Hnt|]. exists rf3, c3. auto.
+Qed.
